@@ -17,6 +17,8 @@ VarNames == {"x", "y"}
 LblNames == {"l"}
 
 TTryE(f) == TTry(f, TC0("empty"))
+\* the recursive step of the family "rec": . - 1 | f
+RecCall == TPipe(TBin("-", TId, TNum(1)), TC0("f"))
 
 \* all ways to split n into two positive parts
 Split2(n) == {<< a, n - a >> : a \in 1..(n - 1)}
@@ -32,6 +34,8 @@ Leaves(fam, sc) ==
                                TKey("a"), TPath(TId, << PFrom(TNum(1)) >>), TPath(TId, << PIdxO(TNum(0)) >>),
                                TPath(TId, << PUpto(TNum(1)) >>)}
           [] fam = "streams" -> {TNum(1), TC0("empty"), TC0("error"), TC0("null")}
+          [] fam = "rec" -> {TNum(1), TC0("empty"), TC0("error"), RecCall}
+          [] fam = "recb" -> {TNum(1), TC0("empty"), TC0("error")}
           [] OTHER -> {})
 
 Bin(fam) ==
@@ -39,6 +43,7 @@ Bin(fam) ==
     [] fam = "order" -> {"|", ",", "//", "or", "and", "+", "-", "<", "=="}
     [] fam = "paths" -> {"|", ",", "//"}
     [] fam = "streams" -> {"|", ",", "//"}
+    [] fam \in {"rec", "recb"} -> {"|", ",", "+", "//"}
     [] OTHER -> {}
 
 \* unary wrappers: each adds one node
@@ -54,9 +59,10 @@ Unary(fam, sc, t) ==
                            TC2("skip", TNum(0), t), TC2("skip", TNum(1), t), TC2("skip", TNum(2), t),
                            TC2("nth", TNum(0), t), TC2("nth", TNum(1), t), TC1("add", t),
                            TC2("any", t, TId), TC2("all", t, TId), TC1("recurse", t)}
+    [] fam \in {"rec", "recb"} -> {TArr(t), TTryE(t), TTry(t, TStr(Ascii("c"))), TC1("first", t)}
     [] OTHER -> {}
 
-HasBinders(fam) == fam \in {"binders", "paths", "streams"}
+HasBinders(fam) == fam \in {"binders", "paths", "streams", "rec", "recb"}
 HasDefs(fam) == fam \in {"binders", "paths"}
 
 G(fam, n, sc) ==
@@ -74,7 +80,7 @@ G(fam, n, sc) ==
                       : s \in Split2(n - 1)}
           ELSE {})
     \* label $l | f
-    \cup (IF fam \in {"binders", "streams"}
+    \cup (IF fam \in {"binders", "streams", "rec", "recb"}
           THEN UNION {{TLabel(l, a) : a \in G(fam, n - 1, [sc EXCEPT !.ls = @ \cup {l}])} : l \in LblNames}
           ELSE {})
     \* if c then t else e end
@@ -104,5 +110,37 @@ G(fam, n, sc) ==
                  : s \in Split2(n - 1)}
           ELSE {})
 
-Programs(fam, maxn) == UNION {G(fam, n, Sc0) : n \in 1..maxn}
+(***************************************************************************)
+(* family "rec": terminating recursion on a counter, the recursive call in *)
+(* every context (tail and non-tail), under an outer label, after at least *)
+(* one earlier recursive step:                                             *)
+(*   label $x | 2 | def f: if . <= 0 then B else S end; W                  *)
+(***************************************************************************)
+RecSc == [Sc0 EXCEPT !.ls = {"x"}]
+RecPrograms(maxn) ==
+  LET Bs == UNION {G("recb", n, RecSc) : n \in 1..2}
+      Ss == UNION {G("rec", n, RecSc) : n \in 1..maxn}
+      Ws == {TC0("f"), TArr(TC0("f")), TC1("first", TC0("f")), TLabel("l", TC0("f")), TTryE(TC0("f"))}
+  IN {TLabel("x", TPipe(TNum(2), TDefs(<< TDef("f", <<>>, TIf(TBin("<=", TId, TNum(0)), b, st)) >>, w))) :
+        b \in Bs, st \in Ss, w \in Ws}
+
+(***************************************************************************)
+(* family "pathidx": compound paths whose index filters are multi-valued,  *)
+(* empty or failing (manual: f[x][y:z] == f as $f | x as $x | y as $y ...) *)
+(***************************************************************************)
+IdxAlphabet == {TNum(0), TComma(TNum(0), TNum(1)), TComma(TNum(1), TC0("error")), TC0("empty"), TNeg(TNum(1)), TKey("a")}
+PartAlphabet ==
+  {PIdx(i) : i \in IdxAlphabet} \cup {PIdxO(i) : i \in {TNum(0), TComma(TNum(5), TStr(Ascii("a")))}}
+  \cup {PIter, PIterO}
+  \cup {PRng(i, j) : i \in {TNum(0), TComma(TNum(0), TNum(1))}, j \in {TNum(2), TComma(TNum(2), TNum(3)), TComma(TNum(1), TC0("error"))}}
+  \cup {PFrom(i) : i \in {TComma(TNum(1), TNum(2))}} \cup {PUpto(j) : j \in {TComma(TNum(1), TNeg(TNum(1)))}}
+PathIdxPrograms(maxn) ==
+  LET Heads == {TId, TComma(TId, TArr(TId)), TC0("error")}
+  IN {TPath(h, << p >>) : h \in Heads, p \in PartAlphabet}
+     \cup (IF maxn >= 2 THEN {TPath(h, << p, q >>) : h \in {TId}, p \in PartAlphabet, q \in PartAlphabet} ELSE {})
+
+Programs(fam, maxn) ==
+  CASE fam = "rec" -> RecPrograms(maxn)
+    [] fam = "pathidx" -> PathIdxPrograms(maxn)
+    [] OTHER -> UNION {G(fam, n, Sc0) : n \in 1..maxn}
 =============================================================================
